@@ -29,6 +29,7 @@ type Config struct {
 	StallMax  time.Duration // upper bound of one stall
 	TraceFull bool          // keep the full decision log (determinism self-test, replays)
 	Strategy  int           // 0: drawn per run; 1 sticky, 2 uniform, 3 pct
+	TickLimit int64         // loop iterations between two scheduling points before the SPIN verdict (0: TickLimit)
 }
 
 type VerdictClass string
@@ -104,6 +105,7 @@ type Sim struct {
 	graceT    *time.Timer
 	onAbort   []func()
 	lastStepT time.Time
+	tickLimit int64
 }
 
 var active atomic.Pointer[Sim]
@@ -132,6 +134,10 @@ func Run(tape *Tape, cfg Config, root func()) Result {
 		notify:   make(chan struct{}, 1),
 		siteHits: map[int]int{},
 		prio:     map[int]int{},
+	}
+	s.tickLimit = cfg.TickLimit
+	if s.tickLimit <= 0 {
+		s.tickLimit = TickLimit
 	}
 	s.srng.seed(splitmix(tape.Seed, 4))
 	s.strategy = cfg.Strategy
@@ -338,7 +344,7 @@ func Tick() {
 	if s == nil {
 		return
 	}
-	if n := s.ticks.Add(1); n > TickLimit {
+	if n := s.ticks.Add(1); n > s.tickLimit {
 		raceDisable()
 		t := s.task()
 		raceEnable()
